@@ -31,8 +31,8 @@ pub fn take_panics() -> Vec<PanicRec> { std::mem::take(&mut *PANICS.lock().unwra
 impl PanicRec {
     /// true when the panic originates from the library under test (or one of its dependencies)
     pub fn in_library(&self) -> bool {
-        (self.file.contains("/repo/") || self.file.contains(".cargo/registry") || self.file.contains("/rustc/") || self.file.contains("library/"))
-            && !self.file.contains("/verif/harness/")
+        // anything that is not the harness itself: ddo (wherever its sources live), its dependencies, the standard library
+        !(self.file.contains("/harness/src/") || self.file.starts_with("src/"))
     }
     pub fn json(&self) -> J { J::obj().set("msg", J::s(self.msg.clone())).set("file", J::s(self.file.clone())).set("line", J::i(self.line)) }
 }
@@ -255,6 +255,8 @@ fn all_tasks_asleep() -> Option<(bool, u64)> {
 
 /// runs `f` (a call to maximize of a parallel solver) on a helper thread and watches for a deadlock
 fn with_watchdog<R: Send>(f: impl FnOnce() -> R + Send) -> R {
+    // the interpreter is single threaded and /proc is meaningless there
+    if cfg!(miri) { return f(); }
     std::thread::scope(|s| {
         let h = s.spawn(f);
         let start = Instant::now();
